@@ -56,8 +56,12 @@ CONSTANTS
   \* ---- request domain
   Items,             \* vocabulary: set of word sequences
   Probes,            \* small subset of Items used as superfluous third argument
+  Heads,             \* first words in other letter case (HELP, Setup, TYPE ...)
+  Variants,          \* names in other letter case, parts of names (only combined with Heads, family words and suite)
   ExtraRequests,     \* further requests (cross references, seeded random ones)
-  Loose,             \* <<w, n>>: w is not n but equals it ignoring case, or is a part of it (w, n word sequences)
+  LooseTo,           \* [word sequences w -> the names n such that w is not n but equals it ignoring case or is a
+                     \*  part of it]: the names a word may be taken for when it is nothing exactly (a lookup table
+                     \*  computed by the harness: TLC cannot look into strings)
   CaseEq,            \* <<w, n>>: w is not n but equals it ignoring case (w, n words)
   AllRequests        \* TRUE: the whole domain; FALSE: only ExtraRequests
 
@@ -141,8 +145,9 @@ R_LinkNamesItsTarget == MisnamedLinks = {}
 Domain ==
   IF ~AllRequests THEN ExtraRequests
   ELSE {<<>>} \cup Items \cup {x \o y : x \in Items, y \in Items}
-       \cup {<<"suite", s>> \o x : s \in Sections, x \in Items}
+       \cup {<<"suite", s>> \o x : s \in Sections, x \in Items \cup Variants}
        \cup {<<p, x[1], y[1]>> : p \in Phases, x \in {z \in Probes : Len(z) = 1}, y \in {z \in Probes : Len(z) = 1}}
+       \cup Variants \cup {<<h>> \o v : h \in Heads, v \in Items \cup Variants}
        \cup ExtraRequests
 
 VARIABLES req,     \* the request (never changes)
@@ -164,7 +169,7 @@ ResultKinds == PageKinds \cup {"invalid", "unspecified"}
 
 InstrNames == UNION {Instr(p) : p \in InstrPhases}
 PhasesWith(i) == {p \in InstrPhases : i \in Instr(p)}
-LooseOf(w, universe) == {n \in universe : <<w, n>> \in Loose}
+LooseOf(w, universe) == IF w \in DOMAIN LooseTo THEN LooseTo[w] \cap universe ELSE {}
 
 \* the readings of the first word of a request: keyword, entity type, phase; if it is none of these - or also, when
 \* it is the only word and names an instruction (`help INSTRUCTION`) - "other"
